@@ -52,9 +52,7 @@ class PruneNGramStream {
 
     PruneNGramStream &operator++() {
       assert(block_);
-      if(UTIL_UNLIKELY(current_.Order() == 1 && specials_.IsSpecial(*current_.begin())))
-        dest_.NextInMemory();
-      else if(currentCount_ > 0) {
+      if((current_.Order() == 1 && specials_.IsSpecial(*current_.begin())) || currentCount_ > 0) {
         if(dest_.Base() < current_.Base()) {
           memcpy(dest_.Base(), current_.Base(), current_.TotalSize());
         }
